@@ -374,9 +374,14 @@ class ODE:
         if not isinstance(__o, ODE):
             return False
 
+        def sort(components):
+            # The order of the components is the order in which they appear in
+            # the file, which is irrelevant for the model
+            return sorted(components, key=lambda c: c.name)
+
         return (
             __o.comments == self.comments
-            and __o.components == self.components
+            and sort(__o.components) == sort(self.components)
             and __o.name == self.name
         )
 
